@@ -33,8 +33,13 @@ SPOKEN = [  # (template, delta minutes relative to the named hour)
     ("half after {H}", 30), ("halb nach {H}", 30), ("halb {H}", -30), ("half {H}", -30), ("half to {H}", -30),
     ("half before {H}", -30), ("halb vor {H}", -30),
 ]
-POD_PM = ["in the afternoon", "in the evening", "at night", "abends", "nachmittags", "nachts", "tonight"]
-POD_AM = ["in the morning", "morgens", "vormittags", "in the forenoon"]
+POD_PM = ["in the afternoon", "in the evening", "at night", "abends", "nachmittags", "nachts", "tonight",
+          # with early/late/very modifiers (rules.py:112-119): still the second half of the day
+          "in the late evening", "in the early afternoon", "in the late afternoon", "late at night", "in the early evening",
+          "am späten abend", "am frühen nachmittag", "am späten nachmittag", "very late"]
+POD_AM = ["in the morning", "morgens", "vormittags", "in the forenoon", "in the early morning", "early in the morning",
+          "in the late morning", "very early"]
+GERMAN_PODS = ("abends", "nachmittags", "nachts", "morgens", "vormittags", "am späten abend", "am frühen nachmittag", "am späten nachmittag")
 
 
 def fmt(tpl, h, mi):
@@ -87,17 +92,17 @@ def spoken_items():
     # <hour> in the <part of day>, unambiguous hour forms only
     for n in range(1, 12):
         for pod in POD_PM:
-            german = pod in ("abends", "nachmittags", "nachts")
-            forms = ["{} uhr".format(n), "{} uhr".format(NAMED_DE[n - 1])] if german else \
-                ["{} o'clock".format(n), NAMED_EN[n - 1], "{} o'clock".format(NAMED_EN[n - 1])]
+            german = pod in GERMAN_PODS
+            forms = ["{} uhr".format(n), "{} uhr".format(NAMED_DE[n - 1]), "{}:30 uhr".format(n)] if german else \
+                ["{} o'clock".format(n), NAMED_EN[n - 1], "{} o'clock".format(NAMED_EN[n - 1]), "{}:30".format(n)]
             for f in forms:
-                out.append(("hour-in-pod:pm", f + " " + pod, n + 12, 0, {"spoken"}))
+                out.append(("hour-in-pod:pm", f + " " + pod, n + 12, 30 if ":30" in f else 0, {"spoken"}))
         for pod in POD_AM:
-            german = pod in ("morgens", "vormittags")
-            forms = ["{} uhr".format(n), "{} uhr".format(NAMED_DE[n - 1])] if german else \
-                ["{} o'clock".format(n), NAMED_EN[n - 1]]
+            german = pod in GERMAN_PODS
+            forms = ["{} uhr".format(n), "{} uhr".format(NAMED_DE[n - 1]), "{}:30 uhr".format(n)] if german else \
+                ["{} o'clock".format(n), NAMED_EN[n - 1], "{}:30".format(n)]
             for f in forms:
-                out.append(("hour-in-pod:am", f + " " + pod, n, 0, {"spoken"}))
+                out.append(("hour-in-pod:am", f + " " + pod, n, 30 if ":30" in f else 0, {"spoken"}))
     return out
 
 
@@ -231,7 +236,7 @@ def run(ctx):
     step = 1 if ctx.thorough else 7
     sel = [m for i, m in enumerate(minutes) if i % step == ctx.seed % step]
     acc.merge(core.pmap_acc(ctx.pid, _on_shard, [(ctx.pid, p) for p in core.chunks(sel, 48)]))
-    return core.finish(ctx, acc, RULE, exhaustive=True, assumptions=[
+    return core.finish(ctx, acc, RULE, exhaustive=bool(ctx.thorough), assumptions=[
         "a resolution with hour but without minute equals hh:00",
         "bare HHMM is asserted only for minutes that are multiples of 5 and hhmm not in {ts.year, year of ts+3 months} (documented military-time heuristic)",
         "not asserted because the library's own patterns give a competing reading: bare digits ('8'), 'H.MM' without am/pm (reads as day.month), 'H.MM am' with a blank (the date pattern explicitly allows it), 'Hh' ('8h' is also 8 hours), 'H Uhr MM' with blanks",
